@@ -89,9 +89,9 @@ Definition spec_check (c s : bytes) : bool :=
 
 (* one correspondence case: processing order, both halves, what the implementation did *)
 Record kcase := { k_client_first : bool; k_c : bytes; k_ct : tail; k_s : bytes; k_st : tail; k_obs : obs; k_normal : bool }.
-Definition kcheck (k : kcase) : bool :=
+Definition kcheck_obs (k : kcase) : bool :=
   obs_eqb (observe (dissect_both (k_client_first k) {| sdata := k_c k; stail := k_ct k |} {| sdata := k_s k; stail := k_st k |}))
-          (k_obs k)
-  && (if k_normal k then spec_check (k_c k) (k_s k) else true).
+          (k_obs k).
+Definition kcheck_spec (k : kcase) : bool := if k_normal k then spec_check (k_c k) (k_s k) else true.
 Definition mk_item (by_client : bool) (rq rs : mview) (swapped : bool) : item :=
   {| it_by_client := by_client; it_req := rq; it_res := rs; it_swapped := swapped |}.
